@@ -51,6 +51,7 @@ fn main() {
     });
     let code = dispatch!(id.as_str(), args,
         "C01" => props::c01::C01,
+        "C02" => props::c02::C02,
     );
     std::process::exit(code);
 }
